@@ -36,7 +36,7 @@ func (t *Term) String() string {
 	}
 	var s string
 	switch t.Op {
-	case "const", "param", "k", "ctx", "global", "freevar", "func", "builtin", "none", "loop":
+	case "const", "param", "k", "ctx", "global", "freevar", "func", "builtin", "none", "loop", "ind":
 		s = t.S
 	case "unknown":
 		s = "?" + t.S
@@ -74,11 +74,7 @@ func (t *Term) String() string {
 		}
 		s = t.A[0].String() + "[" + lo + ":" + hi + "]"
 	case "index":
-		idx := t.A[1].String()
-		if isInductionVar(t.A[1]) {
-			idx = "*" // loop induction variable (range index)
-		}
-		s = t.A[0].String() + "[" + idx + "]"
+		s = t.A[0].String() + "[" + t.A[1].String() + "]"
 	case "lookup":
 		s = t.A[0].String() + "[" + t.A[1].String() + "]"
 	case "buf":
@@ -362,6 +358,16 @@ func (x *TX) of(v ssa.Value, at ssa.Instruction) *Term {
 		}
 		return unknown("unop " + v.Op.String())
 	case *ssa.BinOp:
+		if v.Op == token.ADD {
+			// Go lowers `for i := range xs` to t = phi(-1, t+1); i = t+1: the loop variable is t+1
+			if phi, ok := v.X.(*ssa.Phi); ok {
+				if k, ok := constInt(v.Y); ok && k == 1 {
+					if start, step, ok := counterShape(phi); ok && start == -1 && step == 1 {
+						return &Term{Op: "ind", S: fmt.Sprintf("#%c0", 'i'+rune(x.loopDepth(phi.Block()))), T: T}
+					}
+				}
+			}
+		}
 		l, r := x.Of(v.X, v), x.Of(v.Y, v)
 		if b, ok := v.Type().Underlying().(*types.Basic); ok && b.Info()&types.IsNumeric != 0 {
 			switch v.Op {
@@ -383,6 +389,9 @@ func (x *TX) of(v ssa.Value, at ssa.Instruction) *Term {
 		}
 		return mk("extract", strconv.Itoa(v.Index), tup)
 	case *ssa.Phi:
+		if name, ok := x.counterName(v); ok {
+			return &Term{Op: "ind", S: name, T: T}
+		}
 		var alts []*Term
 		seen := map[string]bool{}
 		for _, e := range v.Edges {
@@ -1510,29 +1519,56 @@ func (p *Prog) zeroBufGlobal(g *ssa.Global) *Term {
 	return z
 }
 
-// isInductionVar: phi(c|@+k) or phi(...)+k — the index of a counting loop.
-func isInductionVar(t *Term) bool {
-	direct := func(u *Term) bool {
-		if u.Op != "phi" {
-			return false
+// counterShape: phi(c, phi+k) — a counting loop variable: start c, step k.
+func counterShape(phi *ssa.Phi) (start, step int, ok bool) {
+	if len(phi.Edges) != 2 {
+		return 0, 0, false
+	}
+	haveStart, haveStep := false, false
+	for _, e := range phi.Edges {
+		if k, isC := constInt(e); isC {
+			start, haveStart = k, true
+			continue
 		}
-		for _, a := range u.A {
-			if a.Op == "loop" {
-				return true
-			}
-			if a.Op == "bin" && (a.A[0].Op == "loop" || a.A[1].Op == "loop") {
-				return true
+		bo, isB := e.(*ssa.BinOp)
+		if !isB || bo.Op != token.ADD || bo.X != ssa.Value(phi) {
+			return 0, 0, false
+		}
+		k, isC := constInt(bo.Y)
+		if !isC {
+			return 0, 0, false
+		}
+		step, haveStep = k, true
+	}
+	return start, step, haveStart && haveStep
+}
+
+// counterName: canonical name of a C-style loop counter `for i := c; …; i++`:
+// "#i<c>" at loop depth 0, "#j<c>" at depth 1, … (so range loops and index loops print alike,
+// nested loops stay distinguishable, and the start value stays visible).
+func (x *TX) counterName(phi *ssa.Phi) (string, bool) {
+	start, step, ok := counterShape(phi)
+	if !ok || step != 1 || start < 0 {
+		return "", false
+	}
+	return fmt.Sprintf("#%c%d", 'i'+rune(x.loopDepth(phi.Block())), start), true
+}
+
+// loopDepth: number of loop headers (other than b itself) whose natural loop contains b.
+func (x *TX) loopDepth(b *ssa.BasicBlock) int {
+	d := 0
+	for _, h := range x.fn.Blocks {
+		if h == b || !h.Dominates(b) || !x.fi.reach[b.Index][h.Index] {
+			continue
+		}
+		for _, pr := range h.Preds {
+			if h.Dominates(pr) {
+				d++
+				break
 			}
 		}
-		return false
 	}
-	if direct(t) {
-		return true
-	}
-	if t.Op == "bin" && (t.S == "+" || t.S == "-") {
-		return (direct(t.A[0]) && t.A[1].Op == "const") || (direct(t.A[1]) && t.A[0].Op == "const")
-	}
-	return false
+	return d
 }
 
 var inlining = map[*ssa.Function]bool{}
